@@ -386,7 +386,7 @@ def run(rep: Report, only: str = "") -> None:
         tasks = [t for t in tasks if only in repr(t[1]) or only in t[0].__name__]
     tasks.sort(key=lambda t: -(t[1][1] if t[0] is task_rule else 0))
     rep.extend(run_tasks(tasks))
-    rep.functions = fo.encoded_functions() + [describe_function(getattr(uc, n)) for n in
+    rep.functions = fo.encoded_functions() + [describe_function(getattr(uc, n, None)) for n in
                                              ("to_output_scale", "to_grad_input_scale", "to_left_grad_scale", "to_right_grad_scale")]
     common_meta(rep)
     rep.bounds["rules"] = (f"apply_constraint + rule functions with n = 1..{6 if thorough else 4} symbolic scales in [1e-6, 1e6]; n = 5, 6 only in the thorough tier; "
